@@ -20,8 +20,10 @@ TRUSTED_BASE = [
 ASSUMPTIONS = ["interpreter stack: 1000 frames suffice for nesting 32", "match()/search() results are an oracle in the model (C11)"]
 TECHNIQUE = "model with explicit crash sites + differential classification of every exception on garbage, near-miss and deeply nested inputs; Coq theorem that evaluation of well-typed queries never errs"
 LEVEL = "proof"
-LEVEL_TEXT = ("Proved: C13_eval_total_partial (well-typed query, well-formed value within the depth limit -> a nodelist), C13_error_str_total. The compile-side totality is stated in "
-              "Props/C13.v and decided by correspondence only (partial): on every generated string the implementation and the model agree on returned / error class / offset, and no other exception type escapes.")
+LEVEL_TEXT = ("Proved: C13_compile_no_other_exception (for every text of scalar values the model's compile() never ends in an exception other than a JSONPathError: no IndexError from the lexer's filter stack or "
+              "the string decoder, no KeyError escaping the parser), C13_find_total_compiled (the query of every text that compiles evaluates to a nodelist on every well-formed value within the depth limit), "
+              "C13_eval_total_partial, C13_error_str_total. NOT proved (partial): that the fuel the model gives the lexer and parser loops always suffices (termination), decided by correspondence - on every "
+              "generated string the implementation and the model agree on returned / error class / offset, and no other exception type escapes.")
 LEVEL_NOTE = "Partial for compile(). Trusted: Coq kernel; crash-site modelling; interpreter stack assumption; correspondence; extraction and driver."
 norm_reply = harness.norm_reply
 
